@@ -1,6 +1,7 @@
 package channels
 
 import (
+	"bytes"
 	"context"
 	"errors"
 	"fmt"
@@ -10,9 +11,11 @@ import (
 	"time"
 
 	"github.com/ipfs/go-datastore"
+	dsq "github.com/ipfs/go-datastore/query"
 	dss "github.com/ipfs/go-datastore/sync"
 
 	datatransfer "github.com/filecoin-project/go-data-transfer/v2"
+	"github.com/filecoin-project/go-data-transfer/v2/channels/internal"
 	zz "github.com/filecoin-project/go-data-transfer/v2/zzverif"
 )
 
@@ -24,6 +27,40 @@ type verifSide struct {
 	c     *Channels
 	env   *VerifEnv
 	codes []datatransfer.EventCode
+	ds    datastore.Batching // the datastore the application supplied (real side)
+}
+
+// verifCheckDurable: the driver also checks, after every event, that the state a query returned
+// is already in the datastore the application supplied (VerifC06_QueriedStateIsDurable).
+var verifCheckDurable bool
+
+// verifDurable: some value in the supplied datastore decodes to a record of this transfer whose
+// views equal the queried ones.
+func verifDurable(s *verifSide, tid datatransfer.TransferID, queried datatransfer.ChannelState) string {
+	res, err := s.ds.Query(context.Background(), dsq.Query{})
+	if err != nil {
+		return "datastore query: " + err.Error()
+	}
+	defer res.Close()
+	found := ""
+	for e := range res.Next() {
+		if e.Error != nil {
+			continue
+		}
+		var rec internal.ChannelState
+		if rec.UnmarshalCBOR(bytes.NewReader(e.Value)) != nil || rec.TransferID != tid {
+			continue
+		}
+		d := verifSameViews(fromInternalChannelState(rec), queried)
+		if d == "" {
+			return ""
+		}
+		found = d
+	}
+	if found == "" {
+		return "the queried channel is not in the application's datastore"
+	}
+	return "the application's datastore holds an older state than the query returned: " + found
 }
 
 func verifNewSide(real bool) *verifSide {
@@ -32,6 +69,7 @@ func verifNewSide(real bool) *verifSide {
 	var ds datastore.Batching
 	if real {
 		ds = dss.MutexWrap(datastore.NewMapDatastore())
+		s.ds = ds
 	}
 	c, err := New(ds, func(evt datatransfer.Event, st datatransfer.ChannelState) { s.codes = append(s.codes, evt.Code) }, s.env, s.env.Self)
 	verifUseRealFSM = false
@@ -79,10 +117,31 @@ func VerifC03_ModelAgainstRealFSM() {
 		return
 	}
 	zz.Reach("native-only model validation")
+	verifModelDriver(200)
+}
+
+// VerifC06_QueriedStateIsDurable is NOT a symbolic harness either: it checks, natively and on the
+// REAL go-statemachine / go-ds-versioning / go-datastore stack that the model replaces everywhere
+// else, the persistence assumption the C06 claim rests on: after every event of 60 pseudo-random
+// histories, the state a query returned is already present, byte-decodable, in the very datastore
+// the application handed to channels.New (no write-behind layer in between).
+//
+//verif:opts nativeonly
+func VerifC06_QueriedStateIsDurable() {
+	zz.Reach("native-only durability validation")
+	if zz.Engine() {
+		return
+	}
+	verifCheckDurable = true
+	defer func() { verifCheckDurable = false }()
+	verifModelDriver(60)
+}
+
+func verifModelDriver(nSeq int) {
 	seed, _ := strconv.Atoi(os.Getenv("VERIF_SEED"))
 	rng := rand.New(rand.NewSource(int64(seed) + 12345))
 	sequences, events := 0, 0
-	for n := 0; n < 200; n++ {
+	for n := 0; n < nSeq; n++ {
 		real, model := verifNewSide(true), verifNewSide(false)
 		tid := datatransfer.TransferID(rng.Uint64())
 		pull := rng.Intn(2) == 0
@@ -150,6 +209,9 @@ func VerifC03_ModelAgainstRealFSM() {
 				}
 				if diff == "" && len(real.env.Cleanups) != len(model.env.Cleanups) {
 					diff = "cleanup calls"
+				}
+				if diff == "" && verifCheckDurable {
+					diff = verifDurable(real, tid, a)
 				}
 				if diff == "" {
 					break
